@@ -17,7 +17,7 @@ MANIFEST = {
             "http_hdr[160] / rd_header[14], never stalled), ws_reader_final_state (an open session holds at most a proper prefix of "
             "one frame or an unfinished header line). NUL bytes in the header block are part of S_ws (D20: a line with a NUL in "
             "front of its LF has no end, as for strchr); a header line starting with its separator, which libcoap took for the "
-            "end of the header block, is refused since fix 8c32d61 (ws_blank_led_line_refused). coap_ws_close's draining loop "
+            "end of the header block, is refused since fix 55210fa (ws_blank_led_line_refused). coap_ws_close's draining loop "
             "(model closeDrain, tied by the wsclose lines): ws_close_drain_bounded (at most 5 coap_ws_read calls from every reader "
             "state for every pending byte string), ws_close_drain_idle, ws_close_drain_recv, ws_read_data_fits (the data part of "
             "coap_ws_read never hands back more than the caller's buffer holds, any state, any buffer size). Ten defects found on the way are "
@@ -438,7 +438,7 @@ def gen_ws_empty_runs(ctx, n_streams):
 
 def gen_ws_hostile_hs(ctx, n_streams):
     """header blocks outside plain HTTP: NUL bytes (C strings: strchr stops there, SPEC DECISION D20), header lines that
-    start with their separator (once taken for the end of the block: fix 8c32d61), binary bytes / frame bytes inside
+    start with their separator (once taken for the end of the block: fix 55210fa), binary bytes / frame bytes inside
     an unfinished header block, odd line ends, NUL-carrying lines around the 159-byte limit.
     Not touched, because the model has oracles there: the value of the Sec-WebSocket-Key line (base64 decoding) and the
     client's status line (atoi) get NUL bytes only (a line with a NUL is never handed to the per-line checks)."""
